@@ -1,4 +1,5 @@
 import Zstd.Proofs.FrameDecoderStandIn
+import Zstd.Proofs.DictParse
 import Zstd.Proofs.FrameFaithful
 import Zstd.Props.C15
 /-
@@ -243,5 +244,21 @@ theorem valid_frame_checksums_agree_faithful (d : DecB) (sdicts : List Spec.Dict
         (runSched d0 rest ops).1.calculatedChecksum = some (Spec.Xxh64.checksum32 r.content) ∧
         (st.checksum = none ∨ st.checksum = (runSched d0 rest ops).1.calculatedChecksum)) :=
   valid_frame_checksums_agree d sdicts hdc f hb r hs hlim ops
+
+
+/-- `valid_frame_checksums_agree` for decoders whose dictionaries were registered through `add_dict` of
+parsed bytes: no coupling hypothesis (`registerDicts_coupled`) -/
+theorem valid_frame_checksums_agree_parsed_dicts (raws : List (List Nat))
+    (hraws : ∀ raw ∈ raws, (∀ x ∈ raw, x < 256) ∧ (Spec.parseDict raw).isSome = true)
+    (f : List Nat) (hb : ∀ x ∈ f, x < 256) (r : Spec.FrameResult)
+    (hs : Spec.decodeFrame f (specRegisterDicts [] raws) = some r) (hlim : r.header.window ≤ ({} : DecB).maxWindow)
+    (ops : List SOp) :
+    ∃ d0 rest, (registerDicts {} raws).reset f = (d0, .ok rest) ∧ (DocOk d0 rest ops →
+      ∀ st, (runSched d0 rest ops).1.state = some st → st.finished = true → st.buf.content = #[] →
+        (runSched d0 rest ops).1.calculatedChecksum = some (Spec.Xxh64.checksum32 r.content) ∧
+        (st.checksum = none ∨ st.checksum = (runSched d0 rest ops).1.calculatedChecksum)) := by
+  have hdc := registerDicts_coupled ({} : DecB) [] raws (fun raw h => (hraws raw h).1) (fun raw h => (hraws raw h).2) .nil
+  have hmw : (registerDicts ({} : DecB) raws).maxWindow = ({} : DecB).maxWindow := (registerDicts_state _ raws).2
+  exact valid_frame_checksums_agree _ _ hdc f hb r hs (by rw [hmw]; exact hlim) ops
 
 end Zstd.Props.C08
